@@ -43,8 +43,8 @@ def apply_faults(data: bytes, faults) -> bytes:
 
 
 def frame_bytes(fr: dict) -> bytes:
-    """Post-fault bytes of a scenario frame."""
-    return apply_faults(bytes.fromhex(fr["hex"]), fr.get("faults"))
+    """Post-fault bytes of a scenario frame (`repeat`: that many back-to-back copies, for giant runs)."""
+    return apply_faults(bytes.fromhex(fr["hex"]), fr.get("faults")) * int(fr.get("repeat", 1))
 
 
 def wire_of(frames) -> bytes:
